@@ -123,7 +123,14 @@ def gen_message(rng, allow_cr=False):
     rng.shuffle(h)
     multipart = rng.random() < 0.35
     lines = [rng.choice(BODY_LINES) for _ in range(rng.randint(0, 5))]
-    if multipart:
+    mime_mode = rng.random() < 0.5
+    if mime_mode and multipart:
+        hl, body = gen_entity(rng, 0, [0])
+        h += hl
+    elif mime_mode:
+        h += mime_headers(rng)
+        body = b"\r\n".join(lines) + (b"\r\n" if lines else b"")
+    elif multipart:
         h.append(b'Content-Type: multipart/mixed; boundary="b1"')
         p1 = b"\r\n".join(rng.choice(BODY_LINES[:12]) for _ in range(rng.randint(1, 3)))
         p2 = b"\r\n".join(rng.choice(BODY_LINES[:12]) for _ in range(rng.randint(1, 3)))
@@ -139,6 +146,80 @@ def gen_message(rng, allow_cr=False):
     if len(raw) == 0:
         raw = b"\r\n"
     return {"raw": raw, "multipart": multipart}
+
+
+MIME_HOSTILE = [b'"', b'\\', b'(', b')', b'{5}', b'{', b'}', b'[', b']', b'%', b'*', b';', b'=', b"'", b' ', b'a', b'Z9', b'NIL', b'\\"', b'x-dos\\path', b'"8bit"', b'8bit']
+CTE_VALUES = [b'7bit', b'8bit', b'base64', b'quoted-printable', b'"8bit"', b'x-dos\\path', b'bin"ary', b'(7bit)', b'{3}', b'x y', b'', b'Q' * 300, b'a\\', b'""']
+
+
+def mime_text(rng, n, eight=True):
+    t = b"".join(rng.choice(MIME_HOSTILE + ([b"\xe9", b"\xc3\xa9"] if eight else [])) for _ in range(rng.randint(0, n))).strip()
+    if rng.random() < 0.08:
+        t += b"W" * rng.randint(200, 500)
+    return t
+
+
+def qparam(v):
+    """a MIME quoted-string carrying v"""
+    return b'"' + v.replace(b"\\", b"\\\\").replace(b'"', b'\\"') + b'"'
+
+
+def mime_headers(rng, ctype=None):
+    """header lines for the MIME fields that reach BODYSTRUCTURE"""
+    h = []
+    if ctype is None:
+        base = rng.choice([b"text/plain", b"text/html", b"application/octet-stream", b"image/x-q", b"text/x-h", b"message/x-z"])
+        params = []
+        if rng.random() < 0.6:
+            params.append(b"charset=" + rng.choice([b"utf-8", b"us-ascii", qparam(mime_text(rng, 3, False) or b"c"), b'"x\\"y"']))
+        if rng.random() < 0.4:
+            params.append(b"name=" + qparam(mime_text(rng, 4) or b"n"))
+        if rng.random() < 0.3:
+            params.append(rng.choice([b"x-unk", b"format", b"a1"]) + b"=" + rng.choice([b"flowed", qparam(mime_text(rng, 3) or b"v"), b"1"]))
+        if rng.random() < 0.7:
+            ctype = base + b"".join(b"; " + x for x in params)
+    if ctype is not None:
+        h.append(b"Content-Type: " + ctype)
+    if rng.random() < 0.7:
+        h.append(b"Content-Transfer-Encoding: " + (rng.choice(CTE_VALUES) if rng.random() < 0.7 else mime_text(rng, 3, False)))
+    if rng.random() < 0.4:
+        h.append(b"Content-ID: " + rng.choice([b"<id1@x>", b'<a"b\\c@x>', b"<(i)>", b"{9}", mime_text(rng, 4)]))
+    if rng.random() < 0.4:
+        h.append(b"Content-Description: " + mime_text(rng, 6))
+    if rng.random() < 0.5:
+        d = rng.choice([b"attachment", b"inline", b"x-odd", b'at"t'])
+        ps = []
+        if rng.random() < 0.7:
+            ps.append(b"filename=" + qparam(mime_text(rng, 4) or b"f"))
+        if rng.random() < 0.3:
+            ps.append(rng.choice([b"size", b"x-p", b"creation-date"]) + b"=" + rng.choice([b"12", qparam(mime_text(rng, 3) or b"v")]))
+        h.append(b"Content-Disposition: " + d + b"".join(b"; " + x for x in ps))
+    if rng.random() < 0.2:
+        h.append(b"Content-Language: " + mime_text(rng, 3))
+    if rng.random() < 0.2:
+        h.append(b"Content-Location: " + mime_text(rng, 3))
+    if rng.random() < 0.2:
+        h.append(b"Content-MD5: " + mime_text(rng, 3))
+    rng.shuffle(h)
+    return h
+
+
+def gen_entity(rng, depth, bcount):
+    """-> (header lines, body bytes) of a MIME entity: a leaf, or a multipart with 1-3 children down to depth 3"""
+    if depth < 3 and (depth == 0 or rng.random() < 0.3):
+        bcount[0] += 1
+        b = rng.choice([b"b%d" % bcount[0], b"b(%d)" % bcount[0], b"b'%d=_x" % bcount[0], b"B%d+/" % bcount[0]])
+        sub = rng.choice([b"mixed", b"alternative", b"related", b"x-odd"])
+        hl = [b"Content-Type: multipart/" + sub + b"; boundary=" + qparam(b)]
+        if depth > 0 and rng.random() < 0.3:
+            hl += [x for x in mime_headers(rng, ctype=b"") if not x.startswith(b"Content-Type")]
+        parts = []
+        for _ in range(rng.randint(1, 3)):
+            ch, cb = gen_entity(rng, depth + 1, bcount)
+            parts.append(b"--" + b + b"\r\n" + b"".join(x + b"\r\n" for x in ch) + b"\r\n" + cb + b"\r\n")
+        return hl, b"".join(parts) + b"--" + b + b"--\r\n"
+    body = b"\r\n".join(rng.choice(BODY_LINES[:12]) for _ in range(rng.randint(1, 3)))
+    return mime_headers(rng), body
 
 
 NAME_BYTES = [b"a", b"B", b"box", b"/", b'"', b"\\", b"{", b"}", b"(", b")", b"%", b"*", b"\xe9", b"&", b"[", b"]", b"1", b"-"]
@@ -333,14 +414,38 @@ def build_scenario(sc):
     return ops, idx
 
 
-BOUNDARY_RE = re.compile(rb"(=_Part_[A-Za-z]+_)(\d{19})")
+BOUNDARY_RE = re.compile(rb"(=_Part_[A-Za-z0-9.+-]+_)(\d{19})")
+
+
+def canon_piece(x):
+    """replace the clock digits of every regenerated boundary in x by the rank of
+    the stamp among the stamps of x (boundaries are stamped in message order, so
+    the rank is the pre-order index of the multipart); same length as before"""
+    stamps = sorted(set(m.group(2) for m in BOUNDARY_RE.finditer(x)))
+    if not stamps:
+        return x
+    rank = {st: i for i, st in enumerate(stamps)}
+    return BOUNDARY_RE.sub(lambda m: m.group(1) + b"%019d" % rank[m.group(2)], x)
 
 
 def canon(recv):
     """raven regenerates MIME boundaries from the clock on every reconstruction
-    (K-bound, property C02): replace the 19 clock digits by zeros (same length,
-    so literal counts are unaffected)."""
-    return BOUNDARY_RE.sub(lambda m: m.group(1) + b"0" * 19, recv)
+    (K-bound, property C02). Every FETCH data item value is canonicalised on its
+    own (so that BODY[1] alone and BODY[1] next to BODYSTRUCTURE read the same);
+    lengths do not change, literal counts stay right."""
+    if not BOUNDARY_RE.search(recv):
+        return recv
+    out = []
+    lines = T.split_responses(recv)
+    if b"".join(lines) != recv:
+        return canon_piece(recv)
+    for l in lines:
+        fp = T.fetch_pairs(l) if l.startswith(b"* ") else None
+        if fp is None:
+            out.append(canon_piece(l))
+            continue
+        out.append(b"* " + fp[0] + b" FETCH (" + b" ".join(n + b" " + canon_piece(v) for n, v in fp[1]) + b")\r\n")
+    return b"".join(out)
 
 
 def fetch_lines(recv):
@@ -416,7 +521,8 @@ def analyse_scenario(sc, res):
         elif kind == "status":
             out["status"].append({"name": info, "recv": recv})
     if not all(appended) or len(appended) != nmsg:
-        out["anomalies"].append("APPEND refused for some message")
+        out["anomalies"].append("APPEND refused for some message: FETCH cases of this scenario are not judged (message numbers shift)")
+        out["fetch"] = []
     out["envs"] = envs
     return out
 
@@ -466,6 +572,158 @@ def judge_fetch_(case, env):
     return True, "", None
 
 
+def py_extract_header(raw, name):
+    """response.extractHeader on ASCII header names (mirror used by the structure oracle)"""
+    want = name.upper()
+    val = b""
+    inh = False
+    for line in raw.split(b"\n"):
+        line = line.rstrip(b"\r")
+        if line == b"":
+            break
+        if line[:1] in (b" ", b"\t"):
+            if inh:
+                val += b" " + line.strip(b" \t\r\n\x0b\x0c")
+            continue
+        i = line.find(b":")
+        if i != -1:
+            if line[:i].strip(b" \t\r\n\x0b\x0c").upper() == want:
+                inh = True
+                val += line[i + 1:].strip(b" \t\r\n\x0b\x0c")
+            else:
+                inh = False
+    return val
+
+
+def parse_struct(v, depth=0):
+    """parenthesised value -> nested python lists of leaf tokens; None when malformed"""
+    if depth > 40:
+        return None
+    if not (v.startswith(b"(") and v.endswith(b")")) or v == b"()":
+        return None
+    tk = T.tokens(v[1:])
+    if tk is None or tk[1] != b")":
+        return None
+    out = []
+    for t in tk[0]:
+        if t.startswith(b"("):
+            sub = parse_struct(t, depth + 1)
+            if sub is None:
+                return None
+            out.append(sub)
+        else:
+            out.append(t)
+    return out
+
+
+def nstring(t):
+    """decoded nstring token: (True, None) for NIL, (True, bytes) for one strict quoted string, (False, None) otherwise"""
+    if t == b"NIL":
+        return True, None
+    if isinstance(t, bytes) and T.is_quoted_strict(t):
+        return True, T.unquote(t)
+    return False, None
+
+
+def split_entity(ent):
+    """(header block incl. final CRLF, body) of a MIME entity text"""
+    i = ent.find(b"\r\n\r\n")
+    if i < 0:
+        return ent, b""
+    return ent[:i + 2], ent[i + 4:]
+
+
+def entity_children(ent):
+    """children entity texts of a multipart entity as raven reconstructs it (boundary="..." in its
+    Content-Type), or None for a leaf"""
+    hd, body = split_entity(ent)
+    ct = py_extract_header(hd, b"Content-Type")
+    if not ct.lower().startswith(b"multipart/"):
+        return None
+    m = re.search(rb'boundary="([^"]*)"', ct, re.I)
+    if not m:
+        return None
+    delim = b"--" + m.group(1)
+    segs = body.split(delim)
+    kids = []
+    for sg in segs[1:]:
+        if sg.startswith(b"--"):
+            break
+        if sg.startswith(b"\r\n"):
+            sg = sg[2:]
+        if sg.endswith(b"\r\n"):
+            sg = sg[:-2]
+        kids.append(sg)
+    return kids
+
+
+def leaf_problem(fields, ent, top):
+    """a body-type-1part list against the entity it describes: every string field is NIL or ONE
+    strict quoted string; encoding / id / description decode to the header values"""
+    if len(fields) < 7 or any(isinstance(f, list) for f in fields[:2]):
+        return "leaf with %d fields" % len(fields)
+    for k in (0, 1, 3, 4, 5):
+        okq, _ = nstring(fields[k]) if not isinstance(fields[k], list) else (False, None)
+        if not okq:
+            return "field %d is not NIL or one quoted string: %r" % (k + 1, fields[k])
+    if not (fields[2] == b"NIL" or (isinstance(fields[2], list) and len(fields[2]) % 2 == 0 and all(not isinstance(x, list) and nstring(x)[0] and x != b"NIL" for x in fields[2]))):
+        return "parameter list is not NIL or (string string ...): %r" % (fields[2],)
+    if isinstance(fields[6], list) or not fields[6].isdigit():
+        return "size field %r" % (fields[6],)
+    hd, _ = split_entity(ent)
+    enc = py_extract_header(hd, b"Content-Transfer-Encoding")
+    want = enc.upper() if enc else b"7BIT"
+    got = nstring(fields[5])[1]
+    if all(c < 0x80 for c in want) and got != want:
+        return "encoding field decodes to %r, the header says %r" % (got, enc)
+    cid = py_extract_header(hd, b"Content-ID")
+    if nstring(fields[3])[1] != (cid if cid else None):
+        return "id field decodes to %r, the header says %r" % (nstring(fields[3])[1], cid)
+    if top:
+        desc = py_extract_header(hd, b"Content-Description")
+        if nstring(fields[4])[1] != (desc if desc else None):
+            return "description field decodes to %r, the header says %r" % (nstring(fields[4])[1], desc)
+    # extension data: md5 / disposition / language ... : NIL, strings, or (string (params))
+    for x in fields[7:]:
+        if isinstance(x, list):
+            if len(x) != 2 or isinstance(x[0], list) or not nstring(x[0])[0] or x[0] == b"NIL":
+                return "disposition %r" % (x,)
+            if not (x[1] == b"NIL" or (isinstance(x[1], list) and len(x[1]) % 2 == 0 and all(not isinstance(y, list) and nstring(y)[0] and y != b"NIL" for y in x[1]))):
+                return "disposition parameters %r" % (x[1],)
+        elif not (x.isdigit() or nstring(x)[0]):
+            return "extension field %r" % (x,)
+    return None
+
+
+def bs_problem(tree, ent, top=True, depth=0):
+    if tree is None:
+        return "not a parenthesised structure"
+    if tree and isinstance(tree[0], list):
+        # multipart: children, subtype, params, ...
+        kids_t = [x for x in tree if isinstance(x, list) and x and (isinstance(x[0], list) or (len(x) >= 7))]
+        n = 0
+        while n < len(tree) and isinstance(tree[n], list):
+            n += 1
+        rest = tree[n:]
+        if not rest or isinstance(rest[0], list) or not nstring(rest[0])[0] or rest[0] == b"NIL":
+            return "multipart subtype %r" % (rest[:1],)
+        for x in rest[1:]:
+            if isinstance(x, list):
+                if len(x) % 2 or any(isinstance(y, list) or not nstring(y)[0] or y == b"NIL" for y in x):
+                    return "multipart parameter list %r" % (x,)
+            elif not nstring(x)[0]:
+                return "multipart extension field %r" % (x,)
+        kids_e = entity_children(ent)
+        if kids_e is None or len(kids_e) != n:
+            return None     # structure of the stored text not recoverable here: lexical checks only
+        for t, e in zip(tree[:n], kids_e):
+            why = bs_problem(t, e, False, depth + 1)
+            if why:
+                return why
+        return None
+    return leaf_problem(tree, ent, top)
+
+
 def struct_ok(v, depth=0):
     """ENVELOPE / BODYSTRUCTURE values: nested lists whose leaves are NIL,
     numbers or quoted strings (RFC 3501 nstring / number), nothing else"""
@@ -474,7 +732,7 @@ def struct_ok(v, depth=0):
     if v == b"NIL" or v.isdigit():
         return True
     if v.startswith(b'"'):
-        return T.unquote(v) is not None and T.tokb(v)
+        return T.is_quoted_strict(v)
     if v.startswith(b"(") and v.endswith(b")"):
         if v == b"()":
             return False
@@ -489,6 +747,10 @@ def value_problem(it, en, v, env, msg):
     k = it["k"]
     if k in ("ENVELOPE", "BODYSTRUCTURE", "BODY") and not struct_ok(v):
         return "%s value is not a list of NIL / number / quoted string / list: %r" % (k, v[:200])
+    if k in ("BODYSTRUCTURE", "BODY") and msg is not None:
+        why = bs_problem(parse_struct(v), msg)
+        if why:
+            return "%s does not describe the stored MIME fields: %s" % (k, why)
     if k == "UID" and v != b"%d" % env["uid"]:
         return "UID value %r" % v
     if k == "RFC822.SIZE" and msg is not None and v != b"%d" % len(msg):
@@ -610,6 +872,23 @@ Definition cls_of (c : bool * str * fenv * str) : nat :=
 Definition okb_of (c : bool * str * fenv * str) : bool :=
   let '(u, arg, e, obs) := c in
   match fetch_plan (items_of u arg) e with Some plan => forallb out_okb plan | None => true end.
+(* BuildBodyStructure, single-part branch: the fields after the parameter list
+   0 = equal to Model single_tail; 1 = differ; 2 = the value does not split into tokens *)
+Fixpoint lstr_eqb (a b : list str) : bool :=
+  match a, b with
+  | [], [] => true
+  | x :: a', y :: b' => str_eqb x y && lstr_eqb a' b'
+  | _, _ => false
+  end.
+Definition bs_single_code (c : str * str) : nat :=
+  let '(msg, bs) := c in
+  match tokens (S (length bs)) (skipn 1 bs) with
+  | Some (t0 :: ts, rest) =>
+      if str_eqb rest [RP]
+      then if lstr_eqb (skipn 2 ts) (single_tail msg (str_eqb t0 (DQ :: S_ "TEXT" ++ [DQ]))) then 0 else 1
+      else 2
+  | _ => 2
+  end.
 Definition spec_of (c : bool * str * fenv * str) : bool :=
   let '(u, arg, e, obs) := c in
   wf_stream (send obs) && match fetch_pairs (send obs) with Some _ => true | None => false end.
@@ -709,6 +988,10 @@ def run_calls(chk, n):
     return nd
 
 
+MACROS = {"ALL": ["FLAGS", "INTERNALDATE", "RFC822.SIZE", "ENVELOPE"], "FAST": ["FLAGS", "INTERNALDATE", "RFC822.SIZE"],
+          "FULL": ["FLAGS", "INTERNALDATE", "RFC822.SIZE", "ENVELOPE", "BODY"]}
+
+
 def gen_scenario(chk, hostile):
     rng = chk.rng
     nm = rng.randint(2, 3)
@@ -729,18 +1012,26 @@ def gen_scenario(chk, hostile):
     if hostile and rng.random() < 0.7:
         stores.append(b"STORE 1 +FLAGS (" + rng.choice([b"x)y", b"a(b", b'q"r', b"{3}"]) + b")")
     reqs, asts = [], {}
-    per = 10
+    per = 6
     for mi, m in enumerate(msgs):
         for j in range(per):
             k = len(reqs)
             r = rng.random()
             if r < 0.08:
-                reqs.append((mi, rng.choice(["ALL", "FAST", "FULL", "full"]), False))
-                asts[k] = None
+                mac = rng.choice(["ALL", "FAST", "FULL", "full"])
+                reqs.append((mi, mac, False))
+                asts[k] = [{"k": x} for x in MACROS[mac.upper()]]
                 continue
             ast = gen_request(rng, m["multipart"])
             reqs.append((mi, render_request(rng, ast), rng.random() < 0.15))
             asts[k] = ast
+    for mi in range(nm):
+        for text, ast, uidm in (("BODYSTRUCTURE", [{"k": "BODYSTRUCTURE"}], False), ("BODY", [{"k": "BODY"}], False),
+                                ("FULL", [{"k": x} for x in MACROS["FULL"]], False),
+                                ("(BODYSTRUCTURE)", [{"k": "UID"}, {"k": "BODYSTRUCTURE"}], True),
+                                ("(BODY FLAGS)", [{"k": "UID"}, {"k": "BODY"}, {"k": "FLAGS"}], True)):
+            asts[len(reqs)] = ast
+            reqs.append((mi, text, uidm))
     uids = {i: i + 1 for i in range(nm)}
     return {"messages": msgs, "mailboxes": boxes, "stores": stores, "requests": reqs, "asts": asts, "uids": uids, "hostile": hostile}
 
@@ -778,6 +1069,13 @@ def evaluate(chk, scs, results, label):
     body += "Definition cls_codes := Eval vm_compute in map cls_of cases.\nPrint cls_codes.\n"
     body += "Definition spec_codes := Eval vm_compute in map (fun c => if spec_of c then 1 else 0) cases.\nPrint spec_codes.\n"
     body += "Definition okb_codes := Eval vm_compute in map (fun c => if okb_of c then 1 else 0) cases.\nPrint okb_codes.\n"
+    bs_cases = []
+    for si, an in enumerate(analyses):
+        for mi, e in an["envs"].items():
+            if e.get("msg") is not None and e.get("bs") and e["bs"].startswith(b'("'):
+                bs_cases.append((si, mi, e))
+    body += "Definition bs_cases : list (str * str) := [\n%s].\n" % ";\n".join("(%s, %s)" % (cstr(e["msg"]), cstr(e["bs"])) for _, _, e in bs_cases)
+    body += "Definition bs_codes := Eval vm_compute in map bs_single_code bs_cases.\nPrint bs_codes.\n"
     body += "Definition streams : list str := [\n%s].\n" % ";\n".join(cstr(s) for s in stream_cases)
     body += "Definition stream_codes := Eval vm_compute in map (fun s => if wf_stream s then 1 else 0) streams.\nPrint stream_codes.\n"
     rc, log = C.coq_eval_cases("C13" + label, body, timeout=1500)
@@ -788,6 +1086,23 @@ def evaluate(chk, scs, results, label):
     if None in (mc, cc, sc_, stc, okc) or len(mc) != len(cases) or len(stc) != len(stream_cases):
         chk.broken_obligation("could not read the C13 %s results from Coq output:\n%s" % (label, log[-800:]))
         return 0
+    bsc = parse_nat_list(log, "bs_codes")
+    if bsc is None or len(bsc) != len(bs_cases):
+        chk.broken_obligation("could not read bs_codes from Coq output")
+        bsc = []
+    for (si, mi, e), code in zip(bs_cases, bsc):
+        if code == "0":
+            continue
+        why = bs_problem(parse_struct(e["bs"]), e["msg"])
+        pl = {"suite": "wire", "scenario": scenario_payload(scs[si]), "message_index": mi, "bodystructure": C.latin(e["bs"][:2000])}
+        if why or not struct_ok(e["bs"]):
+            continue    # judged (and reported) by the FETCH BODYSTRUCTURE case of this message
+        if any(c >= 0x80 for c in py_extract_header(e["msg"], b"Content-Transfer-Encoding")):
+            chk.notes.append("domain edge (8-bit Content-Transfer-Encoding, Unicode upper-casing): %r" % e["bs"][:120])
+            continue
+        chk.broken_obligation("correspondence wire/bodystructure no longer checks: the single-part BODYSTRUCTURE fields differ from Model single_tail for %r" % e["bs"][:300], pl)
+    chk.cov["bodystructure_single_cases_" + label] = len(bs_cases)
+    chk.cov["bodystructure_single_equal_" + label] = sum(1 for x in bsc if x == "0")
     # twin cross-check: whole session streams and every FETCH line
     for s, code in zip(stream_cases, stc):
         if T.wf_stream(s) != (code == "1"):
@@ -809,13 +1124,14 @@ def evaluate(chk, scs, results, label):
         shape = shape_class(fc.get("ast"), fc.get("fail"))
         payload = {"suite": "wire", "scenario": scenario_payload(scs[si]), "request_index": fc["k"],
                    "command": ("UID FETCH " if fc["uid"] else "FETCH ") + fc["text"], "response": C.latin(fc["recv"][:4000])}
+        reason = "disposition_nil" if (not ok and "disposition [b'NIL', b'NIL']" in why) else None
         if not ok:
-            cls = coq_cls or shape
+            cls = coq_cls or shape or reason
             chk.violation("FETCH %s on a stored message: %s" % (fc["text"], why), payload, cls=cls)
         if m != "0":
             nd += 1
-            if not ok and (coq_cls or shape):
-                chk.notes.append("informational: model differs from the implementation inside finding class %s on %r: %r" % (coq_cls or shape, fc["text"], fc["obs_line"][:160]))
+            if not ok and (coq_cls or shape or reason):
+                chk.notes.append("informational: model differs from the implementation inside finding class %s on %r: %r" % (coq_cls or shape or reason, fc["text"], fc["obs_line"][:160]))
                 continue        # inside a listed finding class: informational
             if m == "2":
                 chk.notes.append("model predicts a Go panic (C12) for request %r; implementation answered %r" % (fc["text"], fc["obs_line"][:80]))
